@@ -7,7 +7,7 @@ import lib, sx, framework
 
 def all_checks():
     checks, monitors = {}, {}
-    for modname in ("checks_base", "checks_prop", "checks_truth", "checks_registry", "checks_store", "checks_fol", "checks_quant", "checks_train"):
+    for modname in ("checks_base", "checks_prop", "checks_truth", "checks_hull", "checks_registry", "checks_store", "checks_fol", "checks_quant", "checks_train"):
         try:
             mod = __import__(modname)
         except ImportError as e:
